@@ -517,8 +517,34 @@ def audit(tree, form, expect_trig, xform):
     return probs
 
 
+def _check_hidden_trigger(seed, i):
+    """an action whose trigger is a question without a control (a calculate) has nowhere to sit: the form is refused, for a setvalue and for the
+    setgeopoint of a background-geopoint alike - never converted with the action dropped"""
+    rng = rng_for(seed, PID, "hidden-trigger", i)
+    kind = rng.choice(["geo", "calc", "text"])
+    rows = [{"type": "text", "name": "a", "label": "A"}, {"type": "calculate", "name": "hid", "calculation": rng.choice(["1 + 1", "${a}"])}]
+    target = {"geo": {"type": "background-geopoint", "name": "tgt", "trigger": "${hid}"},
+              "calc": {"type": "calculate", "name": "tgt", "calculation": "2", "trigger": "${hid}"},
+              "text": {"type": "text", "name": "tgt", "label": "T", "trigger": "${hid}", "calculation": "now()"}}[kind]
+    rows.insert(rng.randint(0, 2), target) if rng.random() < 0.5 else rows.append(target)
+    form = {"survey": rows}
+    st, r = xf.convert_form(forms.as_dict(form))
+    if st == "pyxerr":
+        if "not user-visible" in str(r):
+            return {"i": i, "ok": True, "key": ("hidden-trigger", kind, i % 7), "n": 1}
+        return {"i": i, "form": form, "what": f"a {kind} action triggered by a calculate: refused, but not for that reason: {str(r)[:150]}"}
+    if st != "ok":
+        return {"i": i, "skip": "crash (C17)"}
+    root = xf.lparse(r.xform)
+    acts = [s for s in list(root.iter(xf.XF + "setvalue")) + list(root.iter("{http://www.opendatakit.org/xforms}setgeopoint")) if s.get("ref") == "/data/tgt"]
+    return {"i": i, "form": form, "what": f"a {kind} action triggered by the calculate `hid`, which has no control: converted with {len(acts)} action(s) for /data/tgt instead of being refused",
+            "xform": r.xform[:2000]}
+
+
 def _check(args):
     seed, i = args
+    if i % 10 == 9:
+        return _check_hidden_trigger(seed, i)
     rng = rng_for(seed, PID, "oracle", i)
     tree, form, expect_trig = gen_oracle_case(rng)
     via_json = expect_trig and rng.random() < 0.4
